@@ -1,17 +1,27 @@
 (* C16 — Data queries return exactly the values the path designates.
    Statements only.
 
-   FULL STATEMENT (not proved; checked differentially on every run):
-     query_eq_reference : for every wired tree and every path of '/' and '.' steps,
-       process_one_subset attrs labels fuel nodes p = eval (render_nodes ...) p
-     (evaluation over the nested JSON rendering; one envelope per replication,
-      one list per repetition, matches in document order).
-   Proved below: the subset selector; what ONE STEP selects, for every node list
-   and every component (the nodes whose label is the component's id, cut by the
-   Python slice, in document order; the early return of the integer case changes
-   nothing; composites merged in on a descendant step); document order of every
-   selection; and that only value nodes yield values.  What is not proved is the
-   composition of the steps over the tree (envelopes per replication). *)
+   FULL STATEMENT, proved below for every path of child ('/') and attribute ('.') steps:
+     C16_query_eq_reference : for every tree produced by wiring, every such path, every
+       slice, every fuel >= 2*|path|+1,
+       process_one_subset attrs labels fuel nodes p
+         = eval_json labels (render_nodes attrs ia vals k nodes) (p_comps p)
+     i.e. the query equals the evaluation of the path over the nested JSON rendering
+     (QueryRef.eval_json: structurally recursive on the path, no fuel; one envelope per
+     replication, one list per repetition, matches in document order, values of value
+     nodes only), with the SAME ERROR CLASS when it fails (QueryError: no members / no
+     attributes / valueless node; ValueError: zero slice step; IndexError: empty path).
+     The proof goes through the reference over the wired tree (C16_query_eq_tree_reference,
+     C16_values_directly_eq_nodes_then_values, C16_json_reference_eq_tree_reference).
+   Scope of the hypothesis [simple_path]: no component uses the descendant separator '>'
+   (an executable predicate on the path).  For paths WITH descendant steps (every separator
+   one of / . >: executable [wf_path]) the same equality is proved, a descendant step being
+   the structural search of all composite nodes of the rendering, under the executable
+   hypothesis that the rendering is saturated: C16_query_eq_reference_all (values directly)
+   and C16_query_eq_reference_descendant (nodes first), end of this file.  Fuel monotonicity holds for every
+   path (C16_fuel_monotone).
+   Also proved: the subset selector; document order of every selection; only value nodes
+   yield values. *)
 From PBK Require Import Base Descr Walk Wire PySlice PathParser Query QueryProofs QuerySpec.
 
 Theorem C16_subset_selector_none : forall n cs,
@@ -93,3 +103,239 @@ Theorem C16_sort_is_document_filter : forall (E l : list (nat * qn)),
   sort_by_idx l = filter (fun x => existsb (fun y => (fst y =? fst x)%nat) l) E.
 Proof. exact sort_is_document_filter. Qed.
 Print Assumptions C16_sort_is_document_filter.
+
+(* ==== the composition of the steps over the tree ======================================= *)
+From PBK Require Import Nested QueryRef QueryRefProofs.
+
+(* a small wired tree: a value, a fixed replication of two repetitions of (002001 002002
+   002001), a delayed replication with its factor; the 002001 values carry attributes *)
+Definition ex16_nodes : wnodes :=
+  WCons (WValue 0)
+ (WCons (WFixed 103002 3 2 (WCons (WValue 1) (WCons (WValue 2) (WCons (WValue 3)
+                           (WCons (WValue 4) (WCons (WValue 5) (WCons (WValue 6) WNil)))))))
+ (WCons (WDelayed 101000 1 7 (WCons (WValue 8) (WCons (WValue 9) WNil))) WNil)).
+Definition ex16_labels : list (list char) :=
+  map id6 [1001; 2001; 2002; 2001; 2001; 2002; 2001; 31001; 4001; 4001; 33007; 33007]%N.
+Definition ex16_attrs : list attr := [(1, 10, false); (1, 11, false); (3, 10, false); (4, 10, false); (6, 11, false)]%N.
+(* /103002/002001[::-1].033007[::-1] *)
+Definition ex16_path : path :=
+  mkPath None [mkComp ch_slash (id6 103002) (SInt 0);
+               mkComp ch_slash (id6 2001) (SSlice None None (Some (-1)%Z));
+               mkComp ch_dot (id6 33007) (SSlice None None (Some (-1)%Z))].
+
+(* THE QUERY EQUALS THE REFERENCE EVALUATION OVER THE WIRED TREE, for every tree, every
+   attribute relation, every path of child and attribute steps (executable hypothesis
+   [simple_path]: no descendant step), every slice, every fuel above 2*|path|+1; error
+   cases included: both sides give the same error class (QueryError for a missing
+   'members' / 'attributes' / value, ValueError for a zero slice step, IndexError for
+   an empty path). *)
+Theorem C16_query_eq_tree_reference : forall attrs labels fuel nodes p,
+  simple_path (p_comps p) = true -> (2 * length (p_comps p) + 1 <= fuel)%nat ->
+  process_one_subset attrs labels fuel nodes p = eval_ref_nodes attrs labels nodes (p_comps p).
+Proof. exact process_one_subset_ref_nodes. Qed.
+Print Assumptions C16_query_eq_tree_reference.
+
+Example C16_query_eq_tree_reference_nonvacuous :
+  simple_path (p_comps ex16_path) = true /\
+  process_one_subset ex16_attrs ex16_labels 7 ex16_nodes ex16_path =
+    Ok [VList [VList [VIdx 10; VIdx 11; VIdx 10]; VList [VIdx 10; VIdx 11]]] /\
+  eval_ref_nodes ex16_attrs ex16_labels ex16_nodes (p_comps ex16_path) =
+    Ok [VList [VList [VIdx 10; VIdx 11; VIdx 10]; VList [VIdx 10; VIdx 11]]].
+Proof. vm_compute. repeat split; reflexivity. Qed.
+
+(* ==== evaluation over the nested JSON rendering ========================================= *)
+From PBK Require Import NestedProofs QueryRefValues QueryRefJson.
+
+(* evaluating to values directly (the "only value nodes yield values" check at the path
+   end, as the reference over the rendering does) = nodes first, values afterwards (as
+   dataquery.py does): same results AND same error classes, for every path *)
+Theorem C16_values_directly_eq_nodes_then_values : forall attrs labels nodes cs,
+  eval_ref attrs labels nodes cs = eval_ref_nodes attrs labels nodes cs.
+Proof. exact eval_ref_fusion. Qed.
+Print Assumptions C16_values_directly_eq_nodes_then_values.
+
+(* the reference over the rendering (QueryRef.eval_json: structural recursion on the path
+   over Nested.jn, the Coq counterpart of ref_eval in harness/props/C16.py) equals the
+   reference over the tree, when replication nodes hold whole repetitions and the
+   rendering unfolds attributes of attributes at least |path| levels deep *)
+Theorem C16_json_reference_eq_tree_reference : forall attrs ia vals labels k nodes cs,
+  wf_nodes vals nodes -> simple_path cs = true -> (length cs <= k)%nat ->
+  eval_json labels (render_nodes attrs ia vals k nodes) cs = eval_ref attrs labels nodes cs.
+Proof. exact eval_json_tree. Qed.
+Print Assumptions C16_json_reference_eq_tree_reference.
+
+(* C16, FULL STATEMENT for child and attribute steps: a query over a wired subset returns
+   exactly what evaluating the path over the nested JSON rendering returns: one envelope per
+   replication, one list per repetition, matches in document order, values of value nodes
+   only; same error class otherwise.  Hypotheses: the tree comes from wiring; no component
+   uses the descendant separator (executable: simple_path); enough fuel (explicit bound, the
+   depth of the tree does not enter); attributes rendered deep enough. *)
+Theorem C16_query_eq_reference : forall ndesc vals links T nodes s ia labels fuel k p,
+  wire ndesc vals links T = Ok (nodes, s) -> simple_path (p_comps p) = true ->
+  (2 * length (p_comps p) + 1 <= fuel)%nat -> (length (p_comps p) <= k)%nat ->
+  process_one_subset (x_attrs s) labels fuel nodes p =
+  eval_json labels (render_nodes (x_attrs s) ia vals k nodes) (p_comps p).
+Proof. exact query_eq_reference_wired. Qed.
+Print Assumptions C16_query_eq_reference.
+
+(* the same for any tree whose replication nodes hold whole repetitions *)
+Theorem C16_query_eq_reference_wf : forall attrs ia vals labels fuel k nodes p,
+  wf_nodes vals nodes -> simple_path (p_comps p) = true ->
+  (2 * length (p_comps p) + 1 <= fuel)%nat -> (length (p_comps p) <= k)%nat ->
+  process_one_subset attrs labels fuel nodes p =
+  eval_json labels (render_nodes attrs ia vals k nodes) (p_comps p).
+Proof. exact query_eq_reference. Qed.
+Print Assumptions C16_query_eq_reference_wf.
+
+(* non-vacuity: 204008 031021 102002(012001 012001) 204000 101000 031001 (001001): a fixed
+   replication whose members carry associated fields (attributes), a delayed replication;
+   /102002/012001[::-1].A12001 and /101000.031001[:] *)
+Definition ex16_elem (id : N) : desc := DElem (mkElem id [] 0 0 8).
+Definition ex16_T : descs :=
+  DCons (DOper 204008) (DCons (ex16_elem 31021)
+  (DCons (DFixed 102002 (DCons (ex16_elem 12001) (DCons (ex16_elem 12001) DNil))) (DCons (DOper 204000)
+  (DCons (DDelayed 101000 (ex16_elem 31001) (DCons (ex16_elem 1001) DNil)) DNil)))).
+Definition ex16_vals : list value :=
+  [VInt 1; VInt 3; VInt 280; VInt 3; VInt 281; VInt 3; VInt 282; VInt 3; VInt 283; VInt 2; VInt 10; VInt 11].
+Definition ex16_lA : list char := [65; 49; 50; 48; 48; 49]%N.      (* "A12001" *)
+Definition ex16_wlabels : list (list char) :=
+  [id6 31021; ex16_lA; id6 12001; ex16_lA; id6 12001; ex16_lA; id6 12001; ex16_lA; id6 12001;
+   id6 31001; id6 1001; id6 1001].
+Definition ex16_p1 : path :=
+  mkPath None [mkComp ch_slash (id6 102002) (SInt 0);
+               mkComp ch_slash (id6 12001) (SSlice None None (Some (-1)%Z));
+               mkComp ch_dot ex16_lA (SInt 0)].
+Definition ex16_p2 : path :=
+  mkPath None [mkComp ch_slash (id6 101000) (SInt 0); mkComp ch_dot (id6 31001) slice_all].
+
+Example C16_query_eq_reference_nonvacuous :
+  exists nodes s,
+    wire 12 ex16_vals [] ex16_T = Ok (nodes, s) /\
+    simple_path (p_comps ex16_p1) = true /\ simple_path (p_comps ex16_p2) = true /\
+    process_one_subset (x_attrs s) ex16_wlabels 7 nodes ex16_p1 =
+      Ok [VList [VList [VIdx 1; VIdx 3]; VList [VIdx 5; VIdx 7]]] /\
+    eval_json ex16_wlabels (render_nodes (x_attrs s) (fun _ => false) ex16_vals 3 nodes) (p_comps ex16_p1) =
+      Ok [VList [VList [VIdx 1; VIdx 3]; VList [VIdx 5; VIdx 7]]] /\
+    process_one_subset (x_attrs s) ex16_wlabels 5 nodes ex16_p2 = Ok [VIdx 9] /\
+    eval_json ex16_wlabels (render_nodes (x_attrs s) (fun _ => false) ex16_vals 2 nodes) (p_comps ex16_p2) = Ok [VIdx 9].
+Proof. eexists; eexists. split; [vm_compute; reflexivity|]. vm_compute. repeat split; reflexivity. Qed.
+
+(* ==== fuel ================================================================================ *)
+From PBK Require Import QueryFuel.
+
+(* fuel monotonicity, for EVERY path (descendant steps included): once the model returns
+   anything but EFuel — an Ok result or a Python error class — more fuel returns the same *)
+Theorem C16_fuel_monotone : forall attrs labels k k' nodes p,
+  (k <= k')%nat -> process_one_subset attrs labels k nodes p <> Err EFuel ->
+  process_one_subset attrs labels k' nodes p = process_one_subset attrs labels k nodes p.
+Proof. exact process_one_subset_fuel_mono. Qed.
+Print Assumptions C16_fuel_monotone.
+
+Theorem C16_filter_fuel_monotone : forall attrs labels k k' n cs,
+  (k <= k')%nat -> filter_sub attrs labels k n cs <> Err EFuel ->
+  filter_sub attrs labels k' n cs = filter_sub attrs labels k n cs.
+Proof. exact filter_sub_fuel_mono. Qed.
+Print Assumptions C16_filter_fuel_monotone.
+
+(* non-vacuity, on a descendant path: "> 033007" over ex16_nodes needs 7 units of fuel *)
+Example C16_fuel_monotone_nonvacuous :
+  let p := mkPath None [mkComp ch_gt (id6 33007) slice_all] in
+  process_one_subset ex16_attrs ex16_labels 6 ex16_nodes p = Err EFuel /\
+  process_one_subset ex16_attrs ex16_labels 7 ex16_nodes p <> Err EFuel /\
+  process_one_subset ex16_attrs ex16_labels 7 ex16_nodes p =
+    Ok [VList [VList [VIdx 10; VIdx 11; VIdx 10]; VList [VIdx 10; VIdx 11]]].
+Proof. vm_compute. repeat split; try reflexivity. discriminate. Qed.
+
+(* ==== paths with descendant steps ========================================================= *)
+From PBK Require Import QueryRefDesc.
+
+(* C16 for EVERY path the parser can produce (separators '/', '.', '>': executable hypothesis
+   wf_path): the query equals the reference evaluation over the nested JSON rendering, where
+   a descendant step is the search of all composite nodes (QueryRef.jdesc: at every level
+   the nodes labelled id that the slice selects continue with the rest of the path, the
+   composite nodes with another label are searched below; replications are enveloped as in
+   a child step and their positions are chosen in the first repetition; members first, then
+   factor / attributes).  Nodes first (each path end: its value index if it has one), values
+   afterwards — a valueless end node is QueryError.  Hypotheses: the tree comes from wiring;
+   the rendering is saturated (executable: no chain of attributes of attributes is cut
+   short by the unfolding depth K); enough fuel, explicit bound in the path length and the
+   nesting depth of the rendering. *)
+Theorem C16_query_eq_reference_descendant : forall ndesc vals links T nodes s ia labels K fuel p,
+  wire ndesc vals links T = Ok (nodes, s) -> wf_path (p_comps p) = true -> saturated (x_attrs s) K = true ->
+  (2 * jheight (JSeqN 0 (render_nodes (x_attrs s) ia vals K nodes)) + 3 * length (p_comps p) + 2 <= fuel)%nat ->
+  process_one_subset (x_attrs s) labels fuel nodes p =
+  eval_json_nodes labels (render_nodes (x_attrs s) ia vals K nodes) (p_comps p).
+Proof. exact query_desc_eq_reference_wired. Qed.
+Print Assumptions C16_query_eq_reference_descendant.
+
+Theorem C16_query_eq_reference_descendant_wf : forall attrs ia vals labels K fuel nodes p,
+  wf_nodes vals nodes -> wf_path (p_comps p) = true -> saturated attrs K = true ->
+  (2 * jheight (JSeqN 0 (render_nodes attrs ia vals K nodes)) + 3 * length (p_comps p) + 2 <= fuel)%nat ->
+  process_one_subset attrs labels fuel nodes p =
+  eval_json_nodes labels (render_nodes attrs ia vals K nodes) (p_comps p).
+Proof. exact query_desc_eq_reference. Qed.
+Print Assumptions C16_query_eq_reference_descendant_wf.
+
+(* over the rendering, values directly = nodes first then values, for EVERY path (descendant
+   steps included), error classes included *)
+From PBK Require Import QueryRefJsonValues.
+Theorem C16_json_values_directly_eq_nodes_first : forall labels nested cs,
+  eval_json labels nested cs = eval_json_nodes labels nested cs.
+Proof. exact eval_json_fusion. Qed.
+Print Assumptions C16_json_values_directly_eq_nodes_first.
+
+(* hence C16 for every path the parser can produce against the values-directly reference *)
+Theorem C16_query_eq_reference_all : forall ndesc vals links T nodes s ia labels K fuel p,
+  wire ndesc vals links T = Ok (nodes, s) -> wf_path (p_comps p) = true -> saturated (x_attrs s) K = true ->
+  (2 * jheight (JSeqN 0 (render_nodes (x_attrs s) ia vals K nodes)) + 3 * length (p_comps p) + 2 <= fuel)%nat ->
+  process_one_subset (x_attrs s) labels fuel nodes p =
+  eval_json labels (render_nodes (x_attrs s) ia vals K nodes) (p_comps p).
+Proof. exact query_eq_reference_all. Qed.
+Print Assumptions C16_query_eq_reference_all.
+
+(* ... with the fuel bound stated on the tree: path length and depth of the wired tree
+   (wheights: nesting of sequences and replications), plus the unfolding depth K *)
+Theorem C16_query_eq_reference_all_tree : forall ndesc vals links T nodes s ia labels K fuel p,
+  wire ndesc vals links T = Ok (nodes, s) -> wf_path (p_comps p) = true -> saturated (x_attrs s) K = true ->
+  (2 * (wheights nodes + K + 1) + 3 * length (p_comps p) + 2 <= fuel)%nat ->
+  process_one_subset (x_attrs s) labels fuel nodes p =
+  eval_json labels (render_nodes (x_attrs s) ia vals K nodes) (p_comps p).
+Proof. exact query_eq_reference_all_tree. Qed.
+Print Assumptions C16_query_eq_reference_all_tree.
+
+(* what one descendant step of the implementation looks at: the selected matches and the
+   composite nodes with another label, in document order *)
+Theorem C16_step_descendant : forall attrs labels c nodes, (c_sep c =? SEP_DESCEND)%N = true ->
+  filter_for_entities attrs labels nodes c =
+  (let* cutsel := select (label_of labels) c nodes in
+   Ok (filter (fun p => memb (fst p) (map fst cutsel) || is2 attrs labels c p) (enumerate 0 nodes))).
+Proof. exact ffe_descend. Qed.
+Print Assumptions C16_step_descendant.
+
+(* non-vacuity on the wired example above: > A12001[::-1], > 031021 (found as an attribute of
+   attributes inside the replication and as a top-level member), /102002 > 031021[0] *)
+Example C16_query_eq_reference_descendant_nonvacuous :
+  let p3 := mkPath None [mkComp ch_gt ex16_lA (SSlice None None (Some (-1)%Z))] in
+  let p4 := mkPath None [mkComp ch_gt (id6 31021) slice_all] in
+  let p5 := mkPath None [mkComp ch_slash (id6 102002) (SInt 0); mkComp ch_gt (id6 31021) (SInt 0)] in
+  exists nodes s,
+    wire 12 ex16_vals [] ex16_T = Ok (nodes, s) /\
+    saturated (x_attrs s) 2 = true /\ saturated (x_attrs s) 1 = false /\
+    wf_path (p_comps p3) = true /\ wf_path (p_comps p4) = true /\ wf_path (p_comps p5) = true /\
+    simple_path (p_comps p5) = false /\
+    (2 * jheight (JSeqN 0 (render_nodes (x_attrs s) (fun _ => false) ex16_vals 2 nodes)) + 3 * 2 + 2 <= 18)%nat /\
+    (2 * (wheights nodes + 2 + 1) + 3 * 2 + 2 <= 18)%nat /\
+    process_one_subset (x_attrs s) ex16_wlabels 18 nodes p3 = Ok [VList [VList [VIdx 1; VIdx 3]; VList [VIdx 5; VIdx 7]]] /\
+    eval_json_nodes ex16_wlabels (render_nodes (x_attrs s) (fun _ => false) ex16_vals 2 nodes) (p_comps p3) =
+      Ok [VList [VList [VIdx 1; VIdx 3]; VList [VIdx 5; VIdx 7]]] /\
+    process_one_subset (x_attrs s) ex16_wlabels 18 nodes p4 =
+      Ok [VIdx 0; VList [VList [VIdx 0; VIdx 0]; VList [VIdx 0; VIdx 0]]] /\
+    eval_json_nodes ex16_wlabels (render_nodes (x_attrs s) (fun _ => false) ex16_vals 2 nodes) (p_comps p4) =
+      Ok [VIdx 0; VList [VList [VIdx 0; VIdx 0]; VList [VIdx 0; VIdx 0]]] /\
+    process_one_subset (x_attrs s) ex16_wlabels 18 nodes p5 = Ok [VList [VList [VIdx 0; VIdx 0]; VList [VIdx 0; VIdx 0]]] /\
+    eval_json_nodes ex16_wlabels (render_nodes (x_attrs s) (fun _ => false) ex16_vals 2 nodes) (p_comps p5) =
+      Ok [VList [VList [VIdx 0; VIdx 0]; VList [VIdx 0; VIdx 0]]].
+Proof.
+  cbv zeta. eexists; eexists. split; [vm_compute; reflexivity|].
+  repeat (split; [vm_compute; try reflexivity; repeat constructor|]). vm_compute. reflexivity.
+Qed.
